@@ -47,6 +47,17 @@ SCENARIOS = {
                       updaters=[[('m1', 'p1'), ('m2', 'p2'), ('m1', 'p1')], [('m1', 'p2')]]),
     'mod_and_par_stay': dict(scripts={'c1': [('activate', 'm1'), ('activate', 'm2:_p1')], 'c2': [('activate', P2)]},
                              updaters=[[('m2', 'p1'), ('m1', 'p2'), ('m2', 'p1')]]),
+    # parameters in an error state: the snapshot carries the error, a recovery is delivered
+    'error_state': dict(scripts={'c1': [('activate', 'm1'), ('deactivate', 'm1')], 'c2': [('activate', P1)]},
+                        updaters=[[('m1', 'p1', 'err'), ('m1', 'p1'), ('m1', 'p2', 'err')]]),
+    # refused activations subscribe nothing
+    'refused': dict(scripts={'c1': [('activate', 'm1:nope'), ('activate', 'mX'), ('activate', 'm1:hidden'), ('activate', 'm2')],
+                             'c2': [('activate', 'm1:p1'), ('activate', P1)]},
+                    updaters=[[('m1', 'p1'), ('m2', 'p1'), ('m1', 'p1')]]),
+    # module names that are prefixes of each other: deactivating m1 does not touch m1b
+    'prefix_names': dict(mods=('m1', 'm1b'), scripts={'c1': [('activate', 'm1b:_p1'), ('activate', 'm1'), ('deactivate', 'm1')],
+                                                     'c2': [('activate', 'm1b'), ('activate', 'm1:_p1'), ('deactivate', 'm1b')]},
+                         updaters=[[('m1b', 'p1'), ('m1', 'p1'), ('m1b', 'p1'), ('m1', 'p1')]]),
     'two_scopes': dict(scripts={'c1': [('activate', None), ('activate', P1), ('deactivate', None)]},
                        updaters=[[('m1', 'p1'), ('m1', 'p1')]]),
 }
